@@ -260,6 +260,8 @@ def faulty_call(me, T, task, fault, fn_name, rng):
         elif fault == "time-unsorted":
             if len(et) < 2:
                 et, ef = rt.copy(), [x.copy() for x in rf]
+            if len(et) < 2:                          # a single frame cannot be out of order: use two
+                et, ef = np.array([0.0, 0.25]), [np.array([440.0]), np.array([220.0])]
             et = et[::-1].copy()
         return outcome(fn, rt, rf, et, ef)
     if task in ("transcription", "transcription_velocity"):
@@ -352,8 +354,12 @@ def faulty_call(me, T, task, fault, fn_name, rng):
             est = np.append(est, est[-1] + 1.0)
         elif fault == "ref-decreasing":
             ref = ref[::-1].copy()
+            if np.all(np.diff(ref) >= 0):            # all timestamps equal: reversing does not make it decreasing
+                ref = np.arange(len(ref), 0, -1.0)
         elif fault == "est-decreasing":
             est = est[::-1].copy()
+            if np.all(np.diff(est) >= 0):
+                est = np.arange(len(est), 0, -1.0)
         elif fault == "negative-time":
             est = est.copy(); est[0] = -0.5
         elif fault == "ref-negative-time":
